@@ -54,8 +54,14 @@ RECURSIVE Nest(_)
 Nest(n) == IF n = 0 THEN [tag |-> 5505026, ty |-> 7, v |-> <<100, 101, 101, 112>>] ELSE [tag |-> 5505025 + (n % 3), ty |-> 1, v |-> <<Nest(n - 1)>>]
 NestDepths == {8, 31, 32, 33, 34, 64, 100}
 Nested == {Nest(n) : n \in NestDepths}
+\* width: a structure of n (empty) structures, and a comb - at each of d levels k empty structures before the one that goes on
+Empty(g) == [tag |-> g, ty |-> 1, v |-> <<>>]
+Wide(n) == [tag |-> 4325388, ty |-> 1, v |-> [i \in 1..n |-> Empty(4325387)]]
+RECURSIVE Comb(_, _)
+Comb(d, k) == IF d = 0 THEN Empty(4325387) ELSE [tag |-> 4325388, ty |-> 1, v |-> [i \in 1..(k + 1) |-> IF i <= k THEN Empty(4325387) ELSE Comb(d - 1, k)]]
+WideTrees == {Wide(n) : n \in {100, 127, 128, 129, 300}} \cup {Comb(12, 12), Comb(6, 40)}
 MoreTags == {4325377, 4325668, 4325669, 5505025, 5570559, 1, 16777215, 8388608, 4194304}
-Trees == Leaves(IF Deep THEN MoreTags ELSE Tags) \cup S1 \cup S2 \cup S3 \cup Big \cup Nested
+Trees == Leaves(IF Deep THEN MoreTags ELSE Tags) \cup S1 \cup S2 \cup S3 \cup Big \cup Nested \cup WideTrees
 
 \* ---- corrupted encodings (C02): every single-header corruption and every truncation of a few base trees
 Bases == {[tag |-> 4325387, ty |-> 1, v |-> <<[tag |-> 4325382, ty |-> 7, v |-> <<97, 98, 99>>], [tag |-> 4325377, ty |-> 2, v |-> <<0,0,0,5>>]>>],
